@@ -1,47 +1,200 @@
 """C03 - occupancy partitioning and flattening never change the result.
 
-Tie: product Einsums x uniform_occupancy (any leader holding the rank, 1-2 levels, alone or
-beneath a shape split) x flatten() of 2-3 ranks of one tensor (+ occupancy of the flattened
-rank) x well-ordered loop orders; every emitted program is executed in coqc and compared with
-the dense oracle (= the unmapped Einsum)."""
+Tie: product Einsums x
+  (base population) uniform_occupancy (any leader holding the rank, 1-2 levels, alone or beneath a shape split) x
+      flatten() of 2-3 ranks of one tensor (+ occupancy of the flattened rank) x well-ordered loop orders;
+  (wide population, tools/specgen_wide.py) 1-3 occupancy levels whose leader is chosen PER LEVEL, literal or symbolic
+      sizes, beneath 0-2 shape levels; flatten() of 2-3 ranks of any tensor (the output included; contiguous or needing a
+      swizzle; bottom levels of shape-split ranks, e.g. (M, K0)); two disjoint flattens; occupancy of the flattened
+      rank; any linear extension of "levels outermost-to-innermost" as loop order, the output-concordant one, or the
+      compiler's default; up to 4 ranks;
+  (pairs, specgen_wide.wide_pairs) two such Einsums over the same rank names in ONE specification, each with its own
+      partitioning (the second reads the first one's result when its ranks allow) - anything the compiler remembers across
+      Einsums or keys by a rank's name shows here;
+  (all) rank NAMES drawn from a wide pool by an injective renaming (I, O, ..., names ending in I such as KI, names
+      with digits such as K1 / M20, long names) - the compiler derives level / intermediate names (K1, K1I, MK0) from
+      rank names by concatenation, so names are part of the input space.
+Observations on every specification:
+  * the compiler translates it, unless it falls in a structurally recognised class the unchanged compiler refuses
+    (specgen_wide.rejection_class) - any other rejection is a violation (a specification of the property's class yields
+    no output at all);
+  * static side condition (tools/patterns_occ.py): every uniform_occupancy level is emitted as splitEqual(size) on the
+    declared leader of THAT level and splitNonUniform(<root fiber of the leader's split at that level>) on every other
+    tensor; when it fails a targeted search (operands of different occupancy, long partitioned ranks) looks for a
+    failing input;
+  * every emitted program is executed in coqc and compared with the dense oracle (= the unmapped Einsum)."""
+import re
+
 import specgen
+import specgen_wide
+import patterns_occ
 import runlib
 import execlib
 
 LEVEL = "translation_validation"
 
 
-def run(ctx):
-    rng = ctx.rng
-    n = 420 if ctx.quick() else 4000
-    cases = []
-    stats = {"generated": 0, "compiled": 0, "compile_errors": {}, "flatten": 0, "occupancy": 0, "dyn_under_shape": 0}
-    for i in range(n):
+def base_items(rng, n, rename_p):
+    k = 0
+    while k < n:
         es = specgen.gen_product_einsum(rng)
         mp, syms = specgen.occupancy_mapping(rng, es)
         if mp is None:
+            k += 1            # (as before: the draw counts)
             continue
+        k += 1
+        decl, exprs = es["decl"], [es["expr"]]
+        naming = "identity"
+        if rng.random() < rename_p:
+            decl, exprs, mp, _, naming = specgen_wide.rename_ranks(rng, decl, exprs, mp)
+        yield {"yaml": specgen.yaml_of(decl, exprs, mp), "syms": syms or {}, "kind": "base", "mapping": mp, "out": es["out"],
+               "features": {"naming": naming}}
+
+
+def einsum_views(spec, mapping):
+    """[(output, partitioning of that Einsum, declaration restricted to its tensors)]"""
+    res = []
+    parts = mapping.get("partitioning") or {}
+    for st in spec.structs:
+        names = [st["out"]] + [f[1] for t in st["terms"] for f in t["factors"] if f[0] == "T"]
+        res.append((st["out"], parts.get(st["out"], {}), {t: spec.decl[t] for t in spec.decl if t in names}))
+    return res
+
+
+def section_texts(it, spec, text):
+    """the emitted text cut into one section per Einsum (prefix compilation), or None"""
+    if len(spec.structs) == 1:
+        return [text]
+    try:
+        secs, prev = [], ""
+        for i in range(len(it["exprs"])):
+            t = runlib.Spec(specgen.yaml_of(it["decl"], it["exprs"][:i + 1], it["mapping"])).compile()
+            if not t.startswith(prev):
+                return None
+            secs.append(t[len(prev):])
+            prev = t
+        return secs if prev == text else None
+    except Exception:
+        return None
+
+
+def targeted_inputs(spec, part, rng):
+    """Inputs on which a broken leader/follower protocol shows: the partitioned ranks are long (several partitions at
+    every level), the other ranks short, operands of clearly different occupancy."""
+    roots = set()
+    allr = set(r for rs in spec.decl.values() for r in rs)
+    for key, ds in part.items():
+        if key.startswith("(") or not any("occupancy" in d for d in ds):
+            continue
+        if key in allr:
+            roots.add(key)
+        else:
+            for rs, comps in specgen_wide.flatten_tuples(spec.decl, part):
+                if "".join(comps) == key:
+                    roots.update(rs)
+    ext = {}
+    for r in sorted(allr):
+        ext[r] = rng.randint(6, 10) if r in roots else rng.randint(1, 3)
+    if len(roots) > 1:
+        for r in sorted(roots):
+            ext[r] = rng.randint(3, 5)
+    data, scal = runlib.gen_inputs(spec, ext, rng, density=rng.choice([1.0, 0.8, 0.5]), block_p=0.2)
+    return ext, data, scal
+
+
+def fail_key(c):
+    r = c.result
+    if r["status"] == "RAN":
+        key = {"kind": "wrong-result"}
+        what = "program with occupancy partitioning / flattening computes a wrong output: %s" % r["out"][:300]
+    else:
+        key = {"kind": "execution-error", "error": r.get("err", r["status"])[:40]}
+        if "unbound" in r:
+            key["unbound"] = r["unbound"]
+        what = "program cannot be executed: %s" % r
+    return key, what
+
+
+def run(ctx):
+    rng = ctx.rng
+    q = ctx.quick()
+    n_base, n_wide, n_pair = (260, 360, 80) if q else (4000, 2500, 500)
+    items = list(base_items(rng, n_base, 0.3)) + list(specgen_wide.wide_items(rng, n_wide)) + list(specgen_wide.wide_pairs(rng, n_pair))
+    cases = []
+    stats = {"generated": 0, "compiled": 0, "refused_in_known_class": {}, "flatten": 0, "occupancy": 0, "dyn_under_shape": 0,
+             "by_kind": {}, "naming": {}, "features": {}, "leader_follower_validated": 0, "occupancy_splits_validated": 0}
+    broken_side = []
+    for it in items:
         stats["generated"] += 1
-        y = specgen.yaml_of(es["decl"], [es["expr"]], mp)
         try:
-            spec = runlib.Spec(y)
+            spec = runlib.Spec(it["yaml"])
+        except Exception as e:
+            ctx.violation({"kind": "harness-cannot-parse"}, "generated specification cannot be parsed: %s: %s" % (type(e).__name__, e),
+                          {"yaml": it["yaml"]}, no_input=True)
+            continue
+        views = einsum_views(spec, it["mapping"])
+        p = {}
+        for _, pv, _ in views:
+            p.update(pv)                   # (statistics and targeted inputs only)
+        try:
             text = spec.compile()
         except Exception as e:
-            k = type(e).__name__ + ": " + str(e)[:60]
-            stats["compile_errors"][k] = stats["compile_errors"].get(k, 0) + 1
+            cls = set()
+            for o, pv, dv in views:
+                cls |= specgen_wide.rejection_class(dv, o, pv)
+            msg = str(e)
+            if "output-only-flatten" in cls and isinstance(e, ValueError) and "output-only flattened rank" in msg:
+                k = "ValueError: Illegal dataflow: cannot iterate over output-only flattened rank"
+                stats["refused_in_known_class"][k] = stats["refused_in_known_class"].get(k, 0) + 1
+                continue
+            key = {"kind": "rejected", "exception": type(e).__name__,
+                   "flatten_partly_in_output": "flatten-partly-in-output" in cls, "output_only_flatten": "output-only-flatten" in cls}
+            ctx.violation(key, "a specification of the property's class is not translated: %s: %s" % (type(e).__name__, msg[:200]),
+                          {"yaml": it["yaml"], "exception": type(e).__name__, "message": msg})
             continue
         stats["compiled"] += 1
-        p = mp["partitioning"][es["out"]]
+        stats["by_kind"][it["kind"]] = stats["by_kind"].get(it["kind"], 0) + 1
+        for k, v in it["features"].items():
+            if k == "naming":
+                stats["naming"][v] = stats["naming"].get(v, 0) + 1
+            elif v:
+                stats["features"][k] = stats["features"].get(k, 0) + 1
         if any("flatten" in d for ds in p.values() for d in ds):
             stats["flatten"] += 1
         if any("occupancy" in d for ds in p.values() for d in ds):
             stats["occupancy"] += 1
-        if any("uniform_shape" in ds[0] and len(ds) > 1 for ds in p.values()):
+        if any("_shape" in ds[0] and any("occupancy" in d for d in ds) for ds in p.values()):
             stats["dyn_under_shape"] += 1
-        for j in range(2 if ctx.quick() else 3):
-            ext = runlib.default_extents(spec, rng, 1, 7)
+        # static side condition: leader / follower protocol
+        defects = []
+        if patterns_occ.dynamic_table(p):
+            secs = section_texts(it, spec, text)
+            if secs is None:
+                stats["sections_not_separable"] = stats.get("sections_not_separable", 0) + 1
+            else:
+                try:
+                    for (o, pv, dv), sec in zip(views, secs):
+                        if not patterns_occ.dynamic_table(pv):
+                            continue
+                        in_ids = {spec.var_name(t): spec.order(t) for t in dv if t != o}
+                        defects += patterns_occ.leader_follower_ok(sec, pv, in_ids, set(spec.decl), o)
+                        stats["occupancy_splits_validated"] += len(patterns_occ.occupancy_splits(sec, in_ids, set(spec.decl)))
+                except SyntaxError as e:
+                    defects = ["emitted text is not Python: %s" % e]
+                stats["leader_follower_validated"] += 1
+        nr = len(set(r for rs in spec.decl.values() for r in rs))
+        first = len(cases)
+        for j in range(2 if q else 3):
+            ext = runlib.default_extents(spec, rng, 1, 7 if nr <= 3 else 4)
             data, scal = runlib.gen_inputs(spec, ext, rng, density=rng.choice([1.0, 0.7, 0.4]))
-            cases.append(execlib.Case(spec, text, ext, data, scal, meta={"mapping": mp}))
+            cases.append(execlib.Case(spec, text, ext, data, scal, extra_ints=it["syms"], meta={"mapping": it["mapping"], "kind": it["kind"]}))
+        if defects:
+            if len(broken_side) < 12:          # failing-input search (bounded: a broken compiler breaks many programs alike)
+                for j in range(10):
+                    ext, data, scal = targeted_inputs(spec, p, rng)
+                    cases.append(execlib.Case(spec, text, ext, data, scal, extra_ints=it["syms"],
+                                              meta={"mapping": it["mapping"], "kind": it["kind"], "targeted": True}))
+            broken_side.append((it, text, defects, first, len(cases)))
     execlib.evaluate(cases, "c03")
     bad = 0
     for c in cases:
@@ -49,23 +202,29 @@ def run(ctx):
         if r["status"] == "RAN" and r["out"] == "OK":
             continue
         bad += 1
-        if r["status"] == "RAN":
-            key = {"kind": "wrong-result"}
-            what = "program with occupancy partitioning / flattening computes a wrong output: %s" % r["out"][:300]
-        else:
-            key = {"kind": "execution-error", "error": r.get("err", r["status"])[:40]}
-            if "unbound" in r:
-                key["unbound"] = r["unbound"]
-            what = "program cannot be executed: %s" % r
+        key, what = fail_key(c)
         ctx.violation(key, what, c.replay())
+    for it, text, defects, a, b in broken_side:
+        failing = [c for c in cases[a:b] if not (c.result["status"] == "RAN" and c.result["out"] == "OK")]
+        if failing:
+            continue       # reported above with the failing input
+        ctx.violation({"kind": "leader-follower-protocol"},
+                      "occupancy partitioning is not emitted as the directives say: %s; %d executions agree with the oracle"
+                      % ("; ".join(defects[:3]), b - a), {"yaml": it["yaml"], "text": text, "obligation": "patterns_occ.leader_follower_ok", "defects": defects,
+                       "partitioning": it["mapping"]["partitioning"], "decl": it.get("decl"), "exprs": it.get("exprs"), "mapping": it["mapping"]},
+                      no_input=True)
     distinct = len(set(c.text for c in cases))
     ctx.coverage.update({
         "programs": distinct, "executions": len(cases), "disagreements_checked": bad, "evaluations": len(cases),
-        "distinct_nontrivial": distinct, "population": stats,
-        "rule": "random product Einsums x {occupancy stacks of 1-2 levels with any leader holding the rank, optionally under a uniform_shape; flatten() of 2-3 ranks of one "
-                "tensor, optionally with 1-2 occupancy levels on the flattened rank} x well-ordered loop orders; specifications the compiler rejects are counted in compile_errors",
+        "distinct_nontrivial": distinct, "population": stats, "side_condition_broken": len(broken_side),
+        "rule": "random product Einsums x {base: occupancy stacks of 1-2 levels with any leader holding the rank, optionally under a uniform_shape; flatten() of 2-3 ranks of one "
+                "tensor, optionally with 1-2 occupancy levels on the flattened rank; wide: 1-3 levels with a leader per level, literal/symbolic sizes, under 0-2 shape levels, "
+                "flatten of ranks of any tensor incl. the output and of bottom shape levels, two flattens, up to 4 ranks; pairs: two such Einsums in one specification} x well-ordered loop orders (random linear extension / "
+                "output-concordant / compiler default) x rank names from a wide pool; every rejection outside the structurally recognised classes is a violation; "
+                "leader/follower protocol validated statically on every program with occupancy",
         "samples": [{"yaml": cases[i].spec.yaml, "extents": cases[i].extents, "result": cases[i].raw} for i in (0, len(cases) // 2)] if cases else [],
-        "trusted_base": ["Coq 8.16.1 kernel + VM", "Model/Rt.v splitEqual/splitNonUniform/flattenRanks/unflattenRanks/getPayload model", "Model/Interp.v", "tools/py2coq.py", "Model/Einsum.v"],
+        "trusted_base": ["Coq 8.16.1 kernel + VM", "Model/Rt.v splitEqual/splitNonUniform/flattenRanks/unflattenRanks/getPayload model", "Model/Interp.v", "tools/py2coq.py", "Model/Einsum.v",
+                         "tools/patterns_occ.py (data-flow reading of the emitted text)", "tools/specgen_wide.py rejection_class"],
     })
     ctx.assumptions += ["fibertree semantics modelled by Model/Rt.v"]
 
@@ -73,7 +232,25 @@ def run(ctx):
 def replay(ctx, rep):
     r = rep["replay"]
     spec = runlib.Spec(r["yaml"])
-    text = spec.compile()
+    try:
+        text = spec.compile()
+    except Exception as e:
+        print("not translated: %s: %s" % (type(e).__name__, e))
+        print("VIOLATION property=C03 replay=<given file>")
+        return 1
+    if "inputs" not in r:
+        print(text)
+        it = {"decl": r.get("decl"), "exprs": r.get("exprs"), "mapping": r.get("mapping") or {"partitioning": r.get("partitioning", {})}}
+        views = einsum_views(spec, it["mapping"])
+        secs = section_texts(it, spec, text) or []
+        defects = []
+        for (o, pv, dv), sec in zip(views, secs):
+            defects += patterns_occ.leader_follower_ok(sec, pv, {spec.var_name(t): spec.order(t) for t in dv if t != o}, set(spec.decl), o)
+        print("leader/follower protocol:", defects or "OK")
+        if defects:
+            print("VIOLATION property=C03 replay=<given file>")
+            return 1
+        return 0
     data = {t: {tuple(int(x) for x in k.split(",") if x != ""): v for k, v in d.items()} for t, d in r["inputs"].items()}
     c = execlib.Case(spec, text, r["extents"], data, r["scalars"], extra_ints=r.get("extra_ints"))
     execlib.evaluate([c], "c03r")
@@ -83,3 +260,4 @@ def replay(ctx, rep):
         print("VIOLATION property=C03 replay=<given file>")
         return 1
     return 0
+
